@@ -67,6 +67,10 @@ def execAt (E : Eng) (rx : RX) (target : List Nat) (lastIndex : Int) : RX × Opt
     let r' := shiftCaps so.1 r
     (if rx.global then { rx with lastIndex := .int (utf16Length (target.take (capEnd r'))) } else rx, some r')
 
+/-- type_regexp.go:123 `this.get("lastIndex").number()` comes before `global` is looked at: lastIndex is
+    read and converted (valueOf of an object is called) for EVERY expression, global or not -/
+def execConvertsLastIndex (_global : Bool) : Bool := true
+
 /-- type_regexp.go:86 execRegExp: new object state and the (absolute, byte) offsets -/
 def execRegExp (E : Eng) (rx : RX) (target : List Nat) : RX × Option Caps :=
   execAt E rx target (toInt64 rx.lastIndex)
